@@ -96,13 +96,13 @@ From Ucanto Require Import Ipld Cbor Formats MessageFormat Car MessageBytes Toke
 Theorem C08_bytes_refines :
   forall (mh_digest : N -> N -> bstr -> option bstr) (hdr_oracle : bstr -> option (list bstr * N))
          (keys : list N) (valid : N -> bstr -> bstr -> bool) (alg_of : N -> bstr) (fuel : nat) (srv : server)
-         (m : amsg) (root : bstr) (toks : list (bstr * utoken)),
+         (extb : list (bstr * bstr)) (m : amsg) (root : bstr) (toks : list (bstr * utoken)),
     wf_ipld (message_ipld m) = true -> in_budget (message_ipld m) = true ->
     let blocks := request_blocks toks root m in
     roots_ok 1 [root] -> Forall (block_ok mh_digest) blocks -> NoDup (map fst blocks) ->
     msg_root_ok mh_digest root (message_bytes m) ->
-    serve_bytes mh_digest hdr_oracle keys valid alg_of fuel srv (car_encode [root] blocks) =
-    SDone (execute (U_of keys valid alg_of blocks) fuel srv (vis_of blocks) (exec_of (canon_msg m))).
+    serve_bytes mh_digest hdr_oracle keys valid alg_of fuel srv extb (car_encode [root] blocks) =
+    SDone (execute (U_of keys valid alg_of extb blocks) fuel srv (vis_of blocks) (exec_of (canon_msg m))).
 Proof. exact serve_bytes_refines. Qed.
 Print Assumptions C08_bytes_refines.
 
@@ -110,7 +110,7 @@ Print Assumptions C08_bytes_refines.
    canonical form the decoder returns) under the number of its CID, the empty token for the
    message's own root block, nothing for every other link *)
 Theorem C08_bytes_world :
-  forall (keys : list N) (valid : N -> bstr -> bstr -> bool) (alg_of : N -> bstr)
+  forall (keys : list N) (valid : N -> bstr -> bstr -> bool) (alg_of : N -> bstr) (extb : list (bstr * bstr))
          (m : amsg) (root : bstr) (toks : list (bstr * utoken)),
     wf_ipld (message_ipld m) = true -> in_budget (message_ipld m) = true ->
     let blocks := request_blocks toks root m in
@@ -118,9 +118,9 @@ Theorem C08_bytes_world :
     (forall c t, In (c, t) toks ->
        wf_ipld (token_ipld t) = true /\ in_budget (token_ipld t) = true /\ token_typed_ok t = true /\ u_fct t <> Some []) ->
     (forall c t, In (c, t) toks ->
-       U_of keys valid alg_of blocks (lid c) = Some (view_token lid keys valid alg_of (canon_token t))) /\
-    U_of keys valid alg_of blocks (lid root) = Some empty_token /\
-    (forall l, ~ In l (vis_of blocks) -> U_of keys valid alg_of blocks l = None).
+       U_of keys valid alg_of extb blocks (lid c) = Some (view_token lid keys valid alg_of (canon_token t))) /\
+    U_of keys valid alg_of extb blocks (lid root) = Some empty_token /\
+    (forall l, ~ In l (vis_of (blocks ++ extb)) -> U_of keys valid alg_of extb blocks l = None).
 Proof. exact serve_bytes_world. Qed.
 Print Assumptions C08_bytes_world.
 
@@ -133,9 +133,9 @@ Print Assumptions C08_bytes_world.
 Theorem C08_bytes_calls_have_valid_chains :
   forall (mh_digest : N -> N -> bstr -> option bstr) (hdr_oracle : bstr -> option (list bstr * N))
          (keys : list N) (valid : N -> bstr -> bstr -> bool) (alg_of : N -> bstr) (fuel : nat) (srv : server)
-         (body : bstr) (rep : report) (calls : list call),
+         (extb : list (bstr * bstr)) (body : bstr) (rep : report) (calls : list call),
     (forall l p, resolve_proof (s_ctx srv) l = Some p -> d_link p = l) ->
-    serve_bytes mh_digest hdr_oracle keys valid alg_of fuel srv body = SDone (ExecOk rep calls) ->
+    serve_bytes mh_digest hdr_oracle keys valid alg_of fuel srv extb body = SDone (ExecOk rep calls) ->
     exists d, decode_message mh_digest hdr_oracle body = Some d /\
     forall k, In k calls ->
     exists cid data ut h a c,
@@ -143,9 +143,9 @@ Theorem C08_bytes_calls_have_valid_chains :
       token_decode_typed data = Some ut /\
       map (view_cap lid) (u_att ut) = [c] /\ find_handler (r_can c) (s_service srv) = Some h /\
       k = (h_can h, node_cap a) /\
-      let U := U_of keys valid alg_of (blocks_of d) in
+      let U := U_of keys valid alg_of extb (blocks_of d) in
       let inv := mkDlg (lid cid) (vis_of (blocks_of d)) in
       P U (s_ctx srv) fuel (h_desc h) [inv] a /\
-      P_sg U (s_ctx srv) (sig_ok_bytes (B_of (blocks_of d)) lid keys valid alg_of) fuel (h_desc h) [inv] a.
+      P_sg U (s_ctx srv) (sig_ok_bytes (B_of (blocks_of d ++ extb)) lid keys valid alg_of) fuel (h_desc h) [inv] a.
 Proof. exact serve_bytes_calls_have_valid_chains. Qed.
 Print Assumptions C08_bytes_calls_have_valid_chains.
